@@ -177,3 +177,100 @@ func SeqString(seqs [][]string) string {
 	}
 	return strings.Join(parts, " | ")
 }
+
+// CondLabel renders the condition of an If edge symbolically ("" for error tests).
+func CondLabel(ifi *ssa.If, idx int) string {
+	if _, is := IsErrCheck(ifi); is {
+		return ""
+	}
+	s := Sym(ifi.Cond)
+	if idx == 1 {
+		return "!" + s
+	}
+	return s
+}
+
+// TraceSeqs enumerates success paths of f as sequences of: branch conditions
+// (symbolic), calls (static: call:Name(args); interface: inv:Method(args);
+// dynamic: dyn(args)) accepted by keepCall, and the final return ret(...).
+func TraceSeqs(f *ssa.Function, keepCall func(call ssa.CallInstruction) bool) ([][]string, bool) {
+	return SuccessSeqs(f, SeqOpts{
+		EdgeLabel: CondLabel,
+		Classify: func(in ssa.Instruction, inLoop bool) []string {
+			pre := ""
+			if inLoop {
+				pre = "loop:"
+			}
+			switch x := in.(type) {
+			case ssa.CallInstruction:
+				if keepCall != nil && !keepCall(x) {
+					return nil
+				}
+				cc := x.Common()
+				var args []string
+				for _, a := range cc.Args {
+					args = append(args, Sym(a))
+				}
+				kind := "call:"
+				if _, ok := in.(*ssa.Defer); ok {
+					kind = "defer:"
+				}
+				if _, ok := in.(*ssa.Go); ok {
+					kind = "go:"
+				}
+				switch {
+				case cc.IsInvoke():
+					return []string{pre + kind + "inv:" + cc.Method.Name() + "(" + Sym(cc.Value) + ";" + strings.Join(args, ",") + ")"}
+				case cc.StaticCallee() != nil:
+					return []string{pre + kind + SSAName(cc.StaticCallee()) + "(" + strings.Join(args, ",") + ")"}
+				default:
+					if _, isB := cc.Value.(*ssa.Builtin); isB {
+						return nil
+					}
+					return []string{pre + kind + "dyn:" + Sym(cc.Value) + "(" + strings.Join(args, ",") + ")"}
+				}
+			case *ssa.Return:
+				var rs []string
+				for _, r := range x.Results {
+					rs = append(rs, Sym(SpilledResult(x, r)))
+				}
+				return []string{"ret(" + strings.Join(rs, ",") + ")"}
+			}
+			return nil
+		},
+	})
+}
+
+// SpilledResult undoes go/ssa's result spilling in functions with defers: a
+// Return operand that is a load of a result Alloc is replaced by the value
+// most recently stored to that Alloc on the (unique-predecessor) way to the Return.
+func SpilledResult(ret *ssa.Return, r ssa.Value) ssa.Value {
+	ld, ok := r.(*ssa.UnOp)
+	if !ok || ld.Op != token.MUL {
+		return r
+	}
+	a, ok := ld.X.(*ssa.Alloc)
+	if !ok {
+		return r
+	}
+	b := ret.Block()
+	idx := len(b.Instrs)
+	for i, in := range b.Instrs {
+		if in == ssa.Instruction(ld) {
+			idx = i
+		}
+	}
+	for hops := 0; hops < 8; hops++ {
+		for i := idx - 1; i >= 0; i-- {
+			if st, ok := b.Instrs[i].(*ssa.Store); ok && st.Addr == a {
+				return st.Val
+			}
+		}
+		if len(b.Preds) != 1 {
+			return r
+		}
+		b = b.Preds[0]
+		idx = len(b.Instrs)
+	}
+	return r
+}
